@@ -56,8 +56,23 @@ class InjectedValueError(ValueError):
     """A ValueError-family failure (e.g. numpy refusing a truncated tile)."""
 
 
-FAULTS = {"runtime": InjectedFault, "oserror": InjectedOSError, "valueerror": InjectedValueError, "kill": vmp.Killed}
-INJECTED = (InjectedFault, InjectedOSError, InjectedValueError)
+def _local_exception_class():
+    class InjectedLocalError(Exception):
+        """An exception class defined inside a function, holding a lock: it cannot be pickled (what a callback's own
+        error types often are)."""
+
+        def __init__(self, *a):
+            Exception.__init__(self, *a)
+            import threading
+
+            self.guard = threading.Lock()
+
+    return InjectedLocalError
+
+
+InjectedLocalError = _local_exception_class()
+FAULTS = {"unpicklable": InjectedLocalError, "runtime": InjectedFault, "oserror": InjectedOSError, "valueerror": InjectedValueError, "kill": vmp.Killed}
+INJECTED = (InjectedFault, InjectedOSError, InjectedValueError, InjectedLocalError)
 
 
 class FalsyAccepted(list):
